@@ -146,6 +146,18 @@ def rule_nanfill(ctx):
                     base = base.a[0] if base.op == "upd" else base.a[2]
                 if base.op == "call" and call_name(base) == "np.empty":
                     bufs.setdefault(m.root, []).append(m)
+        if len(bufs) == 1:
+            # anonymous buffers: a tuple of n allocations written through one loop variable (`for buf in buffers:`),
+            # unrolled into one store per buffer - as many NaN stores under the silent-source test as buffers returned
+            (name, ms), = bufs.items()
+            main = [r.term for r in s.returns if r.term.op == "tuple" and r.term.a and all(z.op == "call" and call_name(z) == "np.empty" for z in r.term.a)]
+            need(len(main) == 1 and len(main[0].a) >= 4, R, "%s: result buffers not found" % q)
+            nbuf = len(main[0].a)
+            nan = [m for m in ms if m.val.op == "ext" and m.val.a[0] in ("np.nan", "np.NaN")]
+            silent = [m for m in nan if any((call_name(c) == "separation._any_source_silent" or any(call_name(x) == "separation._any_source_silent" for x in tm.walk(c))) for c, p in symeval.pc_conds(m.pc))]
+            for i in range(nbuf):
+                yield ob(R, f, "%s:buffer#%d" % (q, i), len(silent) == nbuf, "each of the %d result buffers is set to NaN for a window with a silent source (%d NaN stores)" % (nbuf, len(silent)), node=(silent or ms)[0].node)
+            continue
         need(len(bufs) >= 4, R, "%s: result buffers not found" % q)
         for name, ms in sorted(bufs.items()):
             nan = [m for m in ms if m.val.op == "ext" and m.val.a[0] in ("np.nan", "np.NaN")]
@@ -191,7 +203,12 @@ def rule_framecall(ctx):
         # results of the window call go to column k of each buffer, in order
         un = [u for u in s.by_kind("unpack") if u.value is c.term]
         ncols = PUBLIC[q]
-        yield ob(R, f, "%s:unpacks-all" % q, len(un) == 1 and un[0].n == ncols, "the window result is unpacked into all %d buffers" % ncols)
+        good_un = len(un) == 1 and un[0].n == ncols
+        if not un:
+            # for buf, values in zip(buffers, result): buf[:, k] = values  - component i goes to the i-th buffer
+            stores = [m for m in s.by_kind("mutate") if m.how == "setitem" and m.pc == c.pc and any(m.val is tm.proj(c.term, i) for i in range(16))]
+            good_un = sorted(i for m in stores for i in range(16) if m.val is tm.proj(c.term, i)) == list(range(ncols))
+        yield ob(R, f, "%s:unpacks-all" % q, good_un, "the window result is unpacked into all %d buffers" % ncols)
         # fallback: fewer than two windows -> non-framewise result expanded
         fb = fallback[0]
         cond = symeval.pc_conds(fb.pc)
